@@ -3,6 +3,7 @@ package main
 // Driver: generate, discharge, judge, report.
 
 import (
+	"context"
 	"encoding/json"
 	"fmt"
 	"go/types"
@@ -173,6 +174,17 @@ func (c *FnCtx) scriptAt(o *Obligation, extra []Term, at *ssa.BasicBlock) string
 		if at != nil && !c.relevant(c.assertBlk[i], at) {
 			continue
 		}
+		if name, named := c.assertAct[i]; named && o.Uses != nil {
+			on := false
+			for _, u := range o.Uses {
+				if u == name {
+					on = true
+				}
+			}
+			if !on {
+				continue // not used by this obligation: left out entirely
+			}
+		}
 		sb.WriteString("(assert " + a + ")\n")
 	}
 	for _, a := range extra {
@@ -180,19 +192,6 @@ func (c *FnCtx) scriptAt(o *Obligation, extra []Term, at *ssa.BasicBlock) string
 	}
 	for _, a := range o.Extra {
 		sb.WriteString("(assert " + a + ")\n")
-	}
-	for _, name := range c.actOrder {
-		on := o.Uses == nil
-		for _, u := range o.Uses {
-			if u == name {
-				on = true
-			}
-		}
-		if on {
-			sb.WriteString("(assert " + c.acts[name] + ")\n")
-		} else {
-			sb.WriteString("(assert (not " + c.acts[name] + "))\n")
-		}
 	}
 	sb.WriteString("; obligation " + o.Name + "\n; clause: " + strings.ReplaceAll(o.Clause, "\n", " ") + "\n")
 	sb.WriteString("(assert " + o.Hyp + ")\n")
@@ -222,6 +221,7 @@ type job struct {
 	script string
 	tmo    int
 	all    bool
+	probe  bool // single fast configuration only (vacuity probes)
 }
 
 func dischargeAll(jobs []job, seed int) {
@@ -235,6 +235,15 @@ func dischargeAll(jobs []job, seed int) {
 			for j := range ch {
 				if j.script == "" {
 					continue // decided earlier
+				}
+				if j.probe {
+					dir := filepath.Join(workDir, "smt")
+					os.MkdirAll(dir, 0o755)
+					file := filepath.Join(dir, sym(j.o.Name)+".smt2")
+					os.WriteFile(file, []byte(j.script), 0o644)
+					r := runOne(solvers[0], file, j.tmo, context.Background())
+					j.o.Verdict, j.o.Results, j.o.File = r.Verdict, []SolverResult{r}, file
+					continue
 				}
 				v, rs, f := solveRace(j.script, j.o.Name, j.tmo, j.all, seed)
 				j.o.Verdict, j.o.Results, j.o.File = v, rs, f
@@ -316,6 +325,9 @@ func (c *FnCtx) runHoudini(tmo int, seed int) []Term {
 }
 
 func runProperty(prop string, tier string, seed int, only string) (*runResult, error) {
+	for _, kf := range loadKnown().Findings {
+		shortPortfolio[kf.Obligation] = true
+	}
 	dirs, err := contractPackages(prop)
 	if err != nil {
 		return nil, err
@@ -347,6 +359,7 @@ func runProperty(prop string, tier string, seed int, only string) (*runResult, e
 	depLines := readDepsSpec()
 	specs.parseContracts("deps", depLines)
 	res := &runResult{trusted: map[string]bool{}, ctxs: map[*Obligation]*FnCtx{}}
+	vacuous := map[*FnCtx]bool{}
 	res.errs = append(res.errs, specs.errs...)
 	res.obls = append(res.obls, checkImmutables(L, specs, prop)...)
 	tmo := 10
@@ -401,6 +414,7 @@ func runProperty(prop string, tier string, seed int, only string) (*runResult, e
 		var siteJobs []siteJob
 		var aggJobs []job
 		var pending []pendingSites
+		var probes []*Obligation
 		for ii, inst := range insts {
 			c := newFnCtx(L, U, fn, sp, specs)
 			c.inst = inst
@@ -431,6 +445,17 @@ func runProperty(prop string, tier string, seed int, only string) (*runResult, e
 				}
 			}
 			en := c.runHoudini(min(ftmo, 3), seed)
+			// vacuity probe: the assumptions of the function (contract preconditions, callee
+			// postconditions, lemmas, axioms, all invariants switched on) must not be contradictory
+			{
+				probe := &Obligation{Name: fmt.Sprintf("%s.consistent", sp.oname()), Kind: "cover", Func: fn.RelString(nil), Clause: "assumptions are satisfiable (vacuity probe: must NOT be unsat)", Hyp: "true", Goal: "true", Cover: true, Props: sp.props}
+				if inst != nil {
+					probe.Name += "." + inst.label
+				}
+				probe.Script = c.script(probe, en)
+				probes = append(probes, probe)
+				res.ctxs[probe] = c
+			}
 			fr.Candidates += len(c.houdini)
 			for _, cd := range c.houdini {
 				if cd.alive {
@@ -464,6 +489,23 @@ func runProperty(prop string, tier string, seed int, only string) (*runResult, e
 				pending = append(pending, pendingSites{o: o, c: c, en: en})
 			}
 			_ = siteJobs
+		}
+		{
+			var pj []job
+			for _, pr := range probes {
+				pj = append(pj, job{o: pr, script: pr.Script, tmo: 3, probe: true})
+			}
+			dischargeAll(pj, seed)
+			for _, pr := range probes {
+				if pr.Verdict == "unsat" {
+					// contradictory assumptions: nothing proved from them counts
+					res.errs = append(res.errs, fmt.Sprintf("VACUOUS: assumptions of %s are contradictory (%s)", pr.Func, pr.Name))
+					vacuous[res.ctxs[pr]] = true
+					res.obls = append(res.obls, pr)
+				} else {
+					pr.Verdict = "sat" // not refuted within the probe budget
+				}
+			}
 		}
 		dischargeAll(aggJobs, seed)
 		for _, pd := range pending {
@@ -555,6 +597,10 @@ func runProperty(prop string, tier string, seed int, only string) (*runResult, e
 			}
 		}
 		for _, j := range jobs {
+			if vacuous[res.ctxs[j.o]] && j.o.Kind != "cover" {
+				j.o.Verdict = "unknown"
+				j.o.Results = append(j.o.Results, SolverResult{Solver: "vacuity-probe", Verdict: "unknown", Raw: "assumptions contradictory; proof discarded"})
+			}
 			fr.Obligations++
 			if ok(j.o) {
 				fr.Discharged++
@@ -646,7 +692,7 @@ func (c *FnCtx) addAxioms(specs *SpecSet) {
 		}
 		if isLemma {
 			// lemmas are activated per obligation (label{...,lemma_name})
-			c.assume(implies(c.act(ax.name), t))
+			c.assumeNamed(ax.name, t)
 			c.lemmasUsed = append(c.lemmasUsed, ax.name)
 		} else {
 			c.assume(t)
